@@ -206,12 +206,38 @@ pub fn corpus_registries() -> Vec<PortableRegistry> {
     out
 }
 
+type D4<T> = Option<Option<Option<Option<T>>>>;
+type D16<T> = D4<D4<D4<D4<T>>>>;
+type D64<T> = D16<D16<D16<D16<T>>>>;
+type D256<T> = D64<D64<D64<D64<T>>>>;
+
+/// deeply nested types registered alone: every level gets its entry (depth-dependent conversion: recursion guards, deferred work)
+fn deep(fails: &mut Vec<Value>) {
+    fn one<T: TypeInfo + 'static>(name: &str, levels: usize, fails: &mut Vec<Value>) {
+        let mut reg = Registry::new();
+        let id = reg.register_type(&meta_type::<T>()).id;
+        let pr: PortableRegistry = reg.into();
+        if pr.types.len() != levels + 1 { fails.push(json!({"law": "closed", "history": [name], "detail": format!("{} entries for {} nested types", pr.types.len(), levels + 1)})); return; }
+        if let Err(e) = well_formed(&pr) { fails.push(json!({"law": if e.contains("carries id") { "dense" } else { "closed" }, "history": [name], "detail": e})); return; }
+        let mut seen = BTreeMap::new();
+        if let Err(e) = faithful(&pr, id, &meta_type::<T>(), &mut seen) { fails.push(json!({"law": "faithful", "history": [name], "detail": e})); }
+    }
+    one::<D16<u8>>("Option^16<u8>", 16, fails);
+    one::<D64<D4<u8>>>("Option^68<u8>", 68, fails);
+    one::<D64<D64<D4<u8>>>>("Option^132<u8>", 132, fails);
+    one::<D256<D4<u8>>>("Option^260<u8>", 260, fails);
+}
+
 pub fn battery(seed: u64) -> Value {
     let rs = roots();
     let mut fails: Vec<Value> = vec![];
+    deep(&mut fails);
     let mut s = seed.wrapping_mul(6364136223846793005).wrapping_add(1442695040888963407);
     let mut next = move |n: usize| { s = s.wrapping_mul(6364136223846793005).wrapping_add(1442695040888963407); ((s >> 33) as usize) % n };
     let mut histories: Vec<Vec<usize>> = vec![(0..rs.len()).collect(), (0..rs.len()).rev().collect(), vec![11, 11, 5, 11], vec![6, 7, 6], vec![35, 18, 0], vec![18, 35], vec![38, 14, 4]];
+    // every root registered again once the table is large (table-size dependent behaviour), in both orders
+    histories.push((0..rs.len()).chain(0..rs.len()).collect());
+    histories.push((0..rs.len()).rev().chain(0..rs.len()).collect());
     for _ in 0..24 { let len = 1 + next(10); histories.push((0..len).map(|_| next(rs.len())).collect()); }
     let n = histories.len();
     for h in &histories {
